@@ -18,7 +18,7 @@ import (
 
 // AOp is one allocator operation.
 type AOp struct {
-	Op  string `json:"op"` // malloc | append | appendstr | realloc | free
+	Op  string `json:"op"` // malloc | append | appendstr | realloc | free | foreign (a buffer made with make(), cap N, that is then used and freed through the allocator)
 	Buf int    `json:"buf,omitempty"` // which live buffer of this worker (modulo)
 	N   int    `json:"n"`
 }
@@ -62,6 +62,13 @@ func genAllocCase(r *simrt.Rand, tier string) *AllocCase {
 		var ops []AOp
 		for i := 0; i < r.Range(3, nops); i++ {
 			op := AOp{Op: r.PickS("malloc", "malloc", "append", "appendstr", "realloc", "free", "free"), Buf: r.Intn(8), N: genASize(r, c.FreeSize)}
+			if r.Bool(0.08) {
+				// a buffer the allocator has never seen: "free only poolable capacities"
+				op.Op = "foreign"
+				if r.Bool(0.5) {
+					op.N = r.Pick(1, 2, 4, 8, 16, 24, 31, 32, 33, 48, 63, 64, 65, 96)
+				}
+			}
 			if op.Op == "append" || op.Op == "appendstr" {
 				op.N = r.Pick(0, 1, 31, 32, 33, 100, 1024, 5000)
 			}
@@ -119,6 +126,7 @@ type liveBuf struct {
 	p     *[]byte
 	model []byte
 	owner int
+	busy  bool // its owner is inside an allocator call on it: neither its contents nor its memory are defined for others
 }
 
 func keyed(id, off, n int) []byte {
@@ -161,6 +169,9 @@ func runAlloc(t *testing.T, ci interface{}, trace bool) *common.Outcome {
 		}
 		verify := func(after string) {
 			for _, b := range all {
+				if b.busy {
+					continue
+				}
 				if len(*b.p) != len(b.model) {
 					fail("length-changed", "after %s: live buffer #%d has length %d, expected %d", after, b.id, len(*b.p), len(b.model))
 					return
@@ -174,12 +185,12 @@ func runAlloc(t *testing.T, ci interface{}, trace bool) *common.Outcome {
 			}
 			for i, x := range all {
 				bx := uintptr(base(x.p))
-				if bx == 0 {
+				if bx == 0 || x.busy {
 					continue
 				}
 				for _, y := range all[i+1:] {
 					by := uintptr(base(y.p))
-					if by == 0 {
+					if by == 0 || y.busy {
 						continue
 					}
 					if bx < by+uintptr(cap(*y.p)) && by < bx+uintptr(cap(*x.p)) {
@@ -226,6 +237,15 @@ func runAlloc(t *testing.T, ci interface{}, trace bool) *common.Outcome {
 						}
 						mine = append(mine, b)
 						all = append(all, b)
+					case "foreign":
+						buf := make([]byte, op.N)
+						nextID++
+						b := &liveBuf{id: nextID, p: &buf, owner: wi}
+						b.model = keyed(b.id, 0, op.N)
+						copy(buf, b.model)
+						mine = append(mine, b)
+						all = append(all, b)
+						o.Probe("foreign_buffer")
 					case "append", "appendstr":
 						if len(mine) == 0 {
 							continue
@@ -233,11 +253,13 @@ func runAlloc(t *testing.T, ci interface{}, trace bool) *common.Outcome {
 						b := mine[op.Buf%len(mine)]
 						more := keyed(b.id, len(b.model), op.N)
 						var np *[]byte
+						b.busy = true
 						if op.Op == "append" {
 							np = a.Append(b.p, more...)
 						} else {
 							np = a.AppendString(b.p, string(more))
 						}
+						b.busy = false
 						if np == nil {
 							fail("append-nil", "%s returned nil", desc)
 							return
@@ -250,7 +272,9 @@ func runAlloc(t *testing.T, ci interface{}, trace bool) *common.Outcome {
 						}
 						b := mine[op.Buf%len(mine)]
 						old := len(b.model)
+						b.busy = true
 						np := a.Realloc(b.p, op.N)
+						b.busy = false
 						if np == nil {
 							fail("realloc-nil", "%s returned nil", desc)
 							return
